@@ -17,6 +17,10 @@ def run(ctx):
     P.L5_nonfinite(ctx, "C07.L5", core)
     P.L6_reserved(ctx, "C07.L6", core, G)
     P.L7_builtins(ctx, "C07.L7", core)
+    from rules import c10
+    ctx.rule("C07.L12", "the parser binds as the documented table says (levels, members, associativity): the printers' parenthesisation rules are written against that table, so a parser that groups or orders operators differently re-reads unparenthesised output as another tree", floor=30)
+    c10.CRATE[0] = core
+    c10.binding_levels_rule(ctx, "C07.L12", core, c10.precedence_rows(core))
     from rules import symprint
     symprint.L2_guards(ctx, "C07.L2", core, G, scope_fns=("ast_to_source", "formatter"))
     symprint.shape_rules(ctx, "C07.R7", core, G, scope_fns=("ast_to_source", "formatter"))
